@@ -81,7 +81,10 @@ impl MemoryMappedAllocator {
 
         // Round up to page size for optimal performance
         let page_size = Self::get_page_size();
-        let actual_size = (size + page_size - 1) & !(page_size - 1);
+        let actual_size = size
+            .checked_add(page_size - 1)
+            .ok_or_else(|| ZiporaError::out_of_memory(size))?
+            & !(page_size - 1);
 
         // Try to get from cache first
         if let Ok(mut cache) = self.region_cache.try_lock() {
